@@ -141,13 +141,15 @@ func propSpecs() map[string]*PropSpec {
 	add(&PropSpec{ID: "C14", Title: "Set and list helpers", Gen: elemGen(genC14Elem), Corpus: elemInsts, PkgSize: 2,
 		Outside: []string{"NaN", "lists longer than the bound"}})
 	add(&PropSpec{ID: "C11", Title: "Name conflicts and duplicates are detected exactly and resolved soundly", Level: "model_checking",
-		Outside: []string{"more than 4 derive calls per plugin", "the AST rewrite of call identifiers (derive/generate.go newPackage) and the end-to-end type-check"},
+		Outside: []string{"more than 4 derive calls per plugin", "end to end (finder, AST rewrite, type-check) only on the one hand-written package of harness/static/c11e2e", "argument types of which one is assignable to another but not conversely"},
 		RunFn: func(r *Runner) {
-			f := "^VX_C11_register_K[23]$"
+			f := "^VX_C11_(register_K[23]|oneway_K[23])(__KF_.*)?$"
 			if r.Tier == "thorough" {
-				f = "^VX_C11_register_"
+				f = "^VX_C11_(register|oneway)_"
 			}
 			r.modeB("derive", f, true, DefaultBounds)
+			// end to end through the finder, the AST rewrite and the type checker (mode A on a hand-written fixture)
+			r.modeStatic("static", "c11e2e", "^VX_C11_e2e_", DefaultBounds, false, func(rel string, fp *FixPkg) { c11EndToEnd(r, rel, fp) })
 		}})
 	add(&PropSpec{ID: "C08", Title: "Generation is deterministic and independent of invocation context", Level: "other",
 		Outside: []string{"invocation context: other packages named in the same run, argument order, path spelling (go/loader behaviour)", "the text of generated function bodies", "more than 3 operations per table"},
